@@ -1899,15 +1899,18 @@ func (p *pipe) Close() {
 		}
 		if block == 1 && (stopping1 || stopping2) { // make sure there is no block cmd
 			p.incrWaits()
-			ch, _ := p.queue.PutOne(context.Background(), cmds.PingCmd)
-			select {
-			case <-ch:
+			// the second bounds the enqueueing as well: with the queue full of commands that the
+			// peer does not answer, PutOne itself would block for ever and the connection stay open.
+			done := make(chan struct{})
+			go func() {
+				ch, _ := p.queue.PutOne(context.Background(), cmds.PingCmd)
+				<-ch
 				p.decrWaits()
+				close(done)
+			}()
+			select {
+			case <-done:
 			case <-time.After(time.Second):
-				go func(ch chan RedisResult) {
-					<-ch
-					p.decrWaits()
-				}(ch)
 			}
 		}
 	}
